@@ -153,10 +153,10 @@ def dbLine (st : DBRun) (lineNo : Nat) (line : String) : Except String (DBRun ×
       let gen ← (get "gen").toNat?
       pure (caller, op, res, gen) : Option _) with
     | none =>
-      -- a call that panicked, or returned neither a result nor an error, is an observation: no
+      -- a call that panicked, never returned, or returned neither a result nor an error, is an observation: no
       -- statement about the database admits it (C02: every result equals the model's; C01: an
       -- ungranted call is refused with access-denied; C09: exactly four outcomes)
-      if (get "res").startsWith "PANIC" || (get "res").startsWith "BADRES" then
+      if (get "res").startsWith "PANIC" || (get "res").startsWith "BADRES" || (get "res").startsWith "HANG" then
         let what := s!"hist={st.hist} line={lineNo} op={get "op"} c={get "c"} n={(get "n").take 80} v={get "v"} res={(get "res").take 200}"
         .ok ({ st with fails := st.fails + 3, steps := st.steps + 1 },
              [s!"PROPFAIL C02 no_panic {what}", s!"PROPFAIL C01 result_is_specified {what}", s!"PROPFAIL C09 four_outcomes {what}"])
@@ -252,6 +252,13 @@ def dbLine (st : DBRun) (lineNo : Nat) (line : String) : Except String (DBRun ×
     if ok == "ok=1" then .ok (st, []) else
       .ok ({ st with fails := st.fails + 1 },
            [s!"PROPFAIL C06 record_wellformed hist={st.hist} line={lineNo} {probe} after a short write a line of the log is not one whole record"])
+  | "stuck" :: rest =>
+    -- the harness made no progress for a minute and a half: a call into the code under test has
+    -- not returned and never will.  No statement admits a call that is never answered.
+    let fs := fields rest
+    let note := ((lookup fs "note").bind unhexStr).getD ""
+    let what := s!"line={lineNo} a call did not return (the run was stopped by the watchdog): {note.take 1500}"
+    .ok ({ st with fails := st.fails + 6 }, [s!"PROPFAIL C02 call_returns {what}", s!"PROPFAIL C01 result_is_specified {what}", s!"PROPFAIL C09 four_outcomes {what}", s!"PROPFAIL C06 call_returns {what}", s!"PROPFAIL C03 call_returns {what}", s!"PROPFAIL C04 later_calls_succeed {what}"])
   | _ =>
     if line.startsWith "#" || line.isEmpty then .ok (st, []) else .error s!"line {lineNo}: unknown line kind"
 
